@@ -68,7 +68,45 @@ func doParse(text string) string {
 	if c.Err != nil {
 		return "MALFORMED"
 	}
-	return "OK " + gen.ShapeAll(tree)
+	return "OK " + gen.ShapeAll(tree) + "\n" + gen.Print(tree, gen.Minimal{})
+}
+
+// doLoad loads a script set and returns the per-script verdicts.
+func doLoad(set map[string]string) string {
+	ok, errs, crash := impl.LoadV1(set, v1call, v1check)
+	if crash != nil {
+		return "CRASH " + crash.Value
+	}
+	var names []string
+	for n := range ok {
+		names = append(names, n+"=ok")
+	}
+	for n, e := range errs {
+		names = append(names, n+"=ERR:"+e.Error())
+	}
+	sort.Strings(names)
+	return strings.Join(names, "\n")
+}
+
+// loadSets: script sets for concurrent loads: the same alias name bound differently, bound at top level, inside a
+// block, not at all (a load error), and sets with parse / check errors.
+var loadSets = []map[string]string{
+	{"main.p": "add_pattern(\"tok\", \"[a-z]+\")\nok = grok(_, \"%{tok:val}\")\nprobe(\"tok\", ok, val)"},
+	{"main.p": "add_pattern(\"tok\", \"\\\\d+\")\nok = grok(_, \"%{tok:val}\")\nprobe(\"tok\", ok, val)"},
+	{"main.p": "ok = grok(_, \"%{tok:val}\")\nprobe(\"tok\", ok, val)", "other.p": "add_key(o, 1)"},
+	{"main.p": "if true {\n add_pattern(\"tok\", \"x\")\n grok(_, \"%{tok:val}\")\n}\nuse(\"lib.p\")", "lib.p": "add_pattern(\"lib_tok\", \"%{WORD}\")\ngrok(_, \"%{lib_tok:w}\")"},
+	{"main.p": "use(\"b.p\")\nuse(\"c.p\")", "b.p": "use(\"c.p\")", "c.p": "add_key(c, \"s\\t\\u00e9\")"},
+	{"main.p": "use(\"b.p\")", "b.p": "use(\"main.p\")", "c.p": "x = = 1", "d.p": "nosuch()"},
+	{"main.p": "a = \"esc \\n \\t \\\\ \\\" \\x41 \\u00e9\"\nb = 'single \\' \\101'\nadd_key(k, a + b)"},
+}
+
+// literalTexts: sources whose string literals contain escape sequences (the parser decodes them).
+var literalTexts = []string{
+	"a = \"tab\\there \\u00e9 \\x41\\n\"\nb = 'q\\'q \\\\ \\101'\nf(\"%{WORD:w} \\\\d+\", a, b)",
+	"grok(_, \"%{IP:ip} \\\\[%{HTTPDATE:t}\\\\] \\\"%{WORD:m}\\\"\")\nk = {\"key\\t1\": \"v\\n1\", 'k\\x322': \"\\u4e2d\\u6587\"}",
+	"x = [\"\\a\\b\\f\\v\", \"\\U0001F600 long long long long long long long long long long long long long long long long long long long long long long long long long long long long long long long long long long long long long long long long long long long long long long long long long long long long long long long long\"]",
+	"s = \"one\\ttwo\"\nt = \"three\\nfour\"\nu = \"five\\\\six\"\nv = \"\\\"seven\\\"\"\nw = '\\'eight\\''\nif s == \"one\\ttwo\" { add_key(z, \"\\x7a\") }",
+	"m = \"\\xe4\\xb8\\xad\"\nn = \"\\344\\270\\255\"\no = \"\\u4e2d\"",
 }
 
 func doRun(s *plrt.Script, j *job) string {
@@ -137,12 +175,19 @@ func genScenario(t *rapid.T) (*scenario, bool) {
 	}
 	n := rapid.IntRange(2, 16).Draw(t, "goroutines")
 	runnersPerSet := map[int]int{}
-	parsers := 0
+	parsers, loaders := 0, 0
 	for i := 0; i < n; i++ {
 		j := &job{Spin: rapid.IntRange(0, 2000).Draw(t, "spin")}
-		if rapid.IntRange(0, 3).Draw(t, "parser") == 0 {
+		if k := rapid.IntRange(0, 7).Draw(t, "parser"); k == 2 || k == 3 {
+			// a load of a whole script set, concurrent with everything else
+			j.Kind = "load"
+			j.Set = rapid.IntRange(0, len(loadSets)-1).Draw(t, "loadset")
+			loaders++
+		} else if k <= 1 {
 			j.Kind = "parse"
-			if rapid.Bool().Draw(t, "badsrc") {
+			if rapid.IntRange(0, 2).Draw(t, "literals") == 0 {
+				j.Text = literalTexts[rapid.IntRange(0, len(literalTexts)-1).Draw(t, "littext")]
+			} else if rapid.Bool().Draw(t, "badsrc") {
 				j.Text = rapid.SampledFrom([]string{"x = = 1", "-0x", "a[", "\"\\q\"", "for a in 1e {}", "if a {"}).Draw(t, "bad")
 			} else {
 				g := sgen.New(t)
@@ -178,6 +223,9 @@ func genScenario(t *rapid.T) (*scenario, bool) {
 			nt = true
 		}
 	}
+	if loaders >= 2 {
+		nt = true
+	}
 	return sc, nt
 }
 
@@ -210,9 +258,12 @@ func execute(t rk.Failer, slot string, sc *scenario) {
 		loaded[i] = ok
 	}
 	for _, j := range sc.Jobs {
-		if j.Kind == "parse" {
+		switch j.Kind {
+		case "parse":
 			j.want = doParse(j.Text)
-		} else {
+		case "load":
+			j.want = doLoad(loadSets[j.Set])
+		default:
 			j.want = doRun(loaded[j.Set]["main.p"], j)
 		}
 	}
@@ -235,9 +286,12 @@ func execute(t rk.Failer, slot string, sc *scenario) {
 				}
 				atomic.AddInt64(&sink, x)
 				var got string
-				if j.Kind == "parse" {
+				switch j.Kind {
+				case "parse":
 					got = doParse(j.Text)
-				} else {
+				case "load":
+					got = doLoad(loadSets[j.Set])
+				default:
 					got = doRun(loaded[j.Set]["main.p"], j)
 				}
 				if got != j.want {
